@@ -389,6 +389,19 @@ Fixpoint invert_trace (tr : list top) : list top :=
                      | other => other
                      end) tr).
 
+Definition neg_val (v : pyval) : res pyval :=
+  match v with
+  | VInt z => Ok (VInt (- z))
+  | VFloat f => Ok (VFloat (PrimFloat.opp f))
+  | VBool b => Ok (VInt (if b then -1 else 0))
+  | VNone => unspec "none"
+  end.
+
+(* gates whose inverse is the same gate with negated parameters (proved for the generated
+   decompositions by Props/C06.v: they are accepted by the inverse table with invert_rotation) *)
+Definition negation_inverse_names : list string :=
+  ["rx"; "ry"; "rz"; "xx"; "rxx"; "yy"; "ryy"; "zz"; "rzz"; "xy"; "pswap"; "cp"; "crx"; "cry"; "crz"; "cphaseshift"; "cu1";
+   "cp00"; "cphaseshift00"; "cp01"; "cphaseshift01"; "cp10"; "cphaseshift10"].
 Definition self_inverse_names : list string :=
   ["id"; "h"; "x"; "y"; "z"; "cx"; "CX"; "cnot"; "cz"; "swap"; "ccx"; "toffoli"; "ccnot"; "cy"; "ch"; "cswap";
    "rccx"; "ecr"; "not"].
@@ -429,7 +442,7 @@ Definition apply_gate (name : string) (args : list expr) (qubits : list qarg) (i
       pop_frame;;~
       (fun s => Ok (tt, mkS (s_env s) (s_gates s) (s_subs s) (s_incl s) (s_nq s) (tl (s_gstack s))));;~
       (if inv && existsb (fun t => match t with
-                                   | TGate n _ _ _ => negb (smem n self_inverse_names || smem n table_inverse_names)
+                                   | TGate n _ _ _ => negb (smem n self_inverse_names || smem n table_inverse_names || smem n negation_inverse_names)
                                    | _ => false
                                    end) body
        then known "inverse of a non-involutive multi-qubit library gate" (sret tt) else sret tt);;~
@@ -444,7 +457,7 @@ Definition apply_gate (name : string) (args : list expr) (qubits : list qarg) (i
               (if inv then
                  match lookup_inv bitref name with
                  | InvUnsupported => sunspec "inverse the implementation may reject"
-                 | _ => if smem name self_inverse_names || smem name table_inverse_names then sret tt
+                 | _ => if smem name self_inverse_names || smem name table_inverse_names || smem name negation_inverse_names then sret tt
                         else known "inverse of a non-involutive multi-qubit library gate" (sret tt)
                  end
                else sret tt);;~
@@ -452,6 +465,10 @@ Definition apply_gate (name : string) (args : list expr) (qubits : list qarg) (i
               bits <~ resolve_all true qubits;;
               sguard (Nat.eqb (List.length pvals) np) EValidation;;~
               sguard (negb (Nat.eqb arity 0) && Nat.eqb (Nat.modulo (List.length bits) arity) 0) EValidation;;~
+              if inv && smem name negation_inverse_names && negb (smem name ["rx"; "ry"; "rz"]) then
+                npvals <~ smapM (fun v => slift (neg_val v)) pvals;;
+                sret (map (fun grp => TGate name npvals grp false) (chunks (List.length bits) arity bits))
+              else
               sret (map (fun grp => TGate name pvals grp inv) (chunks (List.length bits) arity bits))
           end
       end
@@ -813,14 +830,6 @@ Definition spec_run (strict : bool) (qasm2 : bool) (externals : list string) (pr
        end.
 
 (* ---------- lowering a trace to flat statements (to compare with unroll output) ---------- *)
-Definition neg_val (v : pyval) : res pyval :=
-  match v with
-  | VInt z => Ok (VInt (- z))
-  | VFloat f => Ok (VFloat (PrimFloat.opp f))
-  | VBool b => Ok (VInt (if b then -1 else 0))
-  | VNone => unspec "none"
-  end.
-
 (* inverse of a basis-gate application *)
 Definition invert_basis (g : stmt) : res stmt :=
   match g with
@@ -840,7 +849,11 @@ Definition invert_basis (g : stmt) : res stmt :=
   | _ => unspec "inverse of non-gate"
   end.
 
-Definition lower_gate (name : string) (params : list pyval) (qs : list bitref) (inv : bool) : res (list stmt) :=
+Definition lower_gate (name : string) (params0 : list pyval) (qs : list bitref) (inv0 : bool) : res (list stmt) :=
+  (* the inverse of a rotation-like multi-qubit gate is the gate at the negated parameters *)
+  do pi <- (if inv0 && smem name negation_inverse_names && negb (smem name ["rx"; "ry"; "rz"])
+            then do ps <- mapR neg_val params0;; Ok (ps, false) else Ok (params0, inv0));;
+  let '(params, inv) := pi in
   match lookup_op bitref name with
   | Some (Some (_, _, f), _) =>
       match f (map GA (map AVar (seq 0 (List.length params))) ++ map GQ qs) with
